@@ -2,6 +2,7 @@
 From Coq Require Import List String Bool QArith.
 Import ListNotations.
 Require Import DTS.Base.WLS DTS.Model.Avg DTS.Proofs.AvgP.
+Require DTS.Proofs.WMeanP.
 
 (* T34: in every averaging mode, for every selection kind, single and double ended, with and without confidence
    intervals: no output is indexed by the Monte Carlo sample dimension, and every averaged value, variance and bound is
@@ -19,8 +20,19 @@ Proof. exact (wmean_in_hull l lo hi). Qed.
 Theorem C09_weighted_variance l xv : (forall yv, In yv l -> (0 < snd yv)%Q) -> In xv l -> (0 < 1 / isum l /\ 1 / isum l <= snd xv)%Q.
 Proof. exact (wvar_le l xv). Qed.
 
+(* tmpw of the weighted modes is the inverse-variance combination of the forward and backward weighted means: it lies between them and
+   its variance 1/(1/vf + 1/vb) is positive and at most each of the two (the algebra of C06, applied to the averaged quantities) *)
+Theorem C09_tmpw_of_weighted_modes Tf Tb vf vb : (0 < vf -> 0 < vb ->
+  ((Tf <= Tb -> Tf <= DTS.Proofs.WMeanP.tmpw Tf Tb vf vb <= Tb) /\ (Tb <= Tf -> Tb <= DTS.Proofs.WMeanP.tmpw Tf Tb vf vb <= Tf)) /\
+  0 < DTS.Proofs.WMeanP.approx vf vb /\ DTS.Proofs.WMeanP.approx vf vb <= vf /\ DTS.Proofs.WMeanP.approx vf vb <= vb)%Q.
+Proof.
+  intros Hf Hb. split; [split; [exact (DTS.Proofs.WMeanP.tmpw_between Tf Tb vf vb Hf Hb)|exact (DTS.Proofs.WMeanP.tmpw_between' Tf Tb vf vb Hf Hb)]|].
+  split; [exact (DTS.Proofs.WMeanP.approx_pos vf vb Hf Hb)|exact (DTS.Proofs.WMeanP.approx_le_min vf vb Hf Hb)].
+Qed.
+
 Example C09_ex : outputs false AvgX1 XSel true =
   [("tmpf_avgx1", ["time"]); ("tmpf_mc_avgx1_var", ["time"]); ("tmpf_mc_avgx1", ["CI"; "time"])]%string.
 Proof. vm_compute. reflexivity. Qed.
 
 Print Assumptions C09_no_output_keeps_the_sample_dimension. Print Assumptions C09_weighted_mean_in_hull. Print Assumptions C09_weighted_variance.
+Print Assumptions C09_tmpw_of_weighted_modes.
